@@ -201,7 +201,19 @@ func oracleC01(c *hlib.Ctx, reps [][]smp, calls []call, tr []obs, f string) {
 
 // ---------------------------------------------------------------- generator
 
-var c01Funcs = []string{"none", "sum", "max_over_time", "avg_over_time", "delta"}
+// pickNonCounter draws a function name outside the counter set: half of the time uniformly from
+// every name an engine can send, otherwise from the names closest to the classification boundary.
+func pickNonCounter(c *hlib.Ctx) string {
+	r := c.R
+	all := nonCounterNames()
+	f := all[r.Intn(len(all))]
+	if r.Chance(1, 2) {
+		near := []string{"none", "delta", "idelta", "deriv", "changes", "xdelta", "xrate", "xincrease", "sum", "max_over_time", "avg_over_time", "rates", "Rate", "increases", "reset"}
+		f = near[r.Intn(len(near))]
+	}
+	c.Count("func:" + funcClass(f))
+	return f
+}
 
 type layout struct {
 	reps  [][]smp
@@ -433,7 +445,7 @@ func genC01(c *hlib.Ctx) {
 	for i := 0; i < n; i++ {
 		l := genLayout(c, false)
 		c.Count(fmt.Sprintf("replicas:%d", len(l.reps)))
-		f := c01Funcs[r.Intn(len(c01Funcs))]
+		f := pickNonCounter(c)
 		scripts := 1 + r.Intn(3)
 		for k := 0; k < scripts; k++ {
 			cs := genScript(c, l.reps)
